@@ -1,5 +1,6 @@
 import Mdns.Spec.Trace
 import Mdns.Model.Sched
+import Mdns.Driver.SimResponder
 /-
   `sim` ops: correspondence of the scheduler model with real daemon histories on a silent
   network, and the daemon-level monitors.
@@ -386,6 +387,12 @@ def exec (ts : List String) (impl : List String) : Option String :=
       match schedCorrespondence script (iterations obs) with
       | none => some (joinToks impl)
       | some diff => some diff
+    else if script.any (fun c => match c with | .register .. => true | _ => false) then
+      -- registrations on one daemon: the responder model (outside its fragment: `nomodel`)
+      match SimResponder.responderCorrespondence script (iterations obs) with
+      | none => some "nomodel"
+      | some none => some (joinToks impl)
+      | some (some diff) => some diff
     else some "nomodel"
   | [] => none
 
